@@ -43,7 +43,12 @@ def main(argv):
         prop.setup(ctx)
     if replay:
         rec = json.load(open(replay))
-        cases = [rec["case"]]
+        if "case_typed" in rec:
+            cases = [harness.typed_decode(rec["case_typed"])]
+            ctx.evals = int(rec.get("evals0", 1)) - 1
+            ctx.cut_calls = int(rec.get("cut_calls0", 0))
+        else:
+            cases = [rec["case"]]
         soft = 3600
     else:
         n_total = prop.budget[tier]
